@@ -246,6 +246,16 @@ def check(ctx):
                 ctx.check(ok or exempt, "C19.R11", f"{fi.qualname}:{norm(c)[:50]}", c,
                           f"`{short(c, 60)}` visits a nested type with whatever flattening state is current: inside a flattened field, the resolvers of the nested object are wrapped with the flattening getter and fail at execution", fi, c, detail="inside context_setter with get_flattened rebound")
 
+    # ---------------- R13: the schema and the resolver wrapper agree on the parameters that are arguments
+    ctx.rule("C19.R13", "every parameter of a resolver except the GraphQLResolveInfo one is published as an argument and deserialized by the wrapper: neither loop stops early", floor=2)
+    for q_ in (f"{GQL}.OutputSchemaBuilder._resolver", "apischema.graphql.resolvers.resolver_resolve"):
+        f_ = model.func(q_)
+        lps = [n for n in walk_no_nested(f_.node) if isinstance(n, ast.For) and norm(n.iter).endswith(".parameters")]
+        ctx.require(len(lps) == 1, f"{q_}: parameter loop not found")
+        lp = lps[0]
+        early = [x for x in ast.walk(lp) if isinstance(x, (ast.Break, ast.Return)) and not any(isinstance(p_, (ast.FunctionDef, ast.Lambda)) and x in ast.walk(p_) for p_ in ast.walk(lp) if p_ is not lp)]
+        ctx.check(not early, "C19.R13", q_, early[0] if early else lp, "the loop over the resolver's parameters can stop before the last one (e.g. at the GraphQLResolveInfo parameter): the parameters declared after it are not published / not deserialized, while the other side handles them", f_, early[0] if early else lp, detail="no break / return in the parameter loop")
+
     # ---------------- R12: methods of a generic class are looked up with the parametrised type
     ctx.rule("C19.R12", "serialized methods / resolvers are looked up with the visited type itself (`tp`, possibly a parametrised generic), not its origin class: their TypeVars are substituted from it", floor=3)
     n12 = 0
@@ -329,6 +339,7 @@ def mutants(mb):
     mb.add_text("field-default-hashed", G, "        if field_default is None or field_default is Undefined:\n", "        if field_default in {None, Undefined}:\n", "C19.R7", "_field")
     mb.add_text("flatten-context-leaks-to-field-types", G, "        factory = self._visit_field_type(field.type, field.serialization)\n", "        factory = self.visit_with_conv(field.type, field.serialization)\n", "C19.R11", "_field")
     mb.add_text("resolvers-of-origin-class", G, "        for resolver, types in get_resolvers(tp):", "        for resolver, types in get_resolvers(cls):", "C19.R12", "get_resolvers")
+    mb.add_text("arguments-stop-at-info", G, "                if is_union_of(param_type, graphql.GraphQLResolveInfo):\n                    continue\n", "                if is_union_of(param_type, graphql.GraphQLResolveInfo):\n                    break\n", "C19.R13", "_resolver")
     mb.add_text("neg-default-tuple-membership", G, "                elif param.default is None or param.default is Undefined:\n", "                elif param.default in (None, Undefined):\n", negative=True)
     mb.add_text("field-no-fallback-optional", G, "            except Exception:\n                field_type = Optional[field_type]\n", "            except Exception:\n                raise\n", "C19.R4", "_field")
     mb.add_text("default-no-aliaser", G, "                            param.default,\n                            aliaser=self.aliaser,\n", "                            param.default,\n", "C19", "")
